@@ -8,6 +8,9 @@ ROOT = os.path.dirname(os.path.dirname(os.path.abspath(__file__)))
 REPLAY_BIN = os.path.join(ROOT, ".cache", "target-replay", "release", "vx-replay")
 
 
+LAST_PROBE_CASES = 0
+
+
 def run_probe(fn):
     """Runs the native probe search for one function name on the real compiled code. Returns the failing-input record or None."""
     try:
@@ -61,9 +64,19 @@ def make_replay(pid, v, tier):
                         found = True
                         break
             if not found:
-                rec["replay_on_real_code"] = {"probe": fn, "result": "no failing input found by the probe search", "stdout_tail": p.stdout[-400:]}
+                cases = 0
+                for line in p.stdout.split("\n"):
+                    line = line.strip()
+                    if line.startswith("{") and '"cases"' in line:
+                        try:
+                            cases = max(cases, int(json.loads(line).get("cases", 0)))
+                        except Exception:  # noqa
+                            pass
+                rec["replay_on_real_code"] = {"probe": fn, "result": "no failing input found by the probe search", "cases": cases, "stdout_tail": p.stdout[-400:]}
         except Exception as e:  # noqa
             rec["replay_on_real_code"] = {"probe": fn, "error": str(e)}
     with open(path, "w") as f:
         json.dump(rec, f, indent=1)
+    global LAST_PROBE_CASES
+    LAST_PROBE_CASES = (rec.get("replay_on_real_code") or {}).get("cases", 0) if not found else 0
     return path, found
